@@ -31,6 +31,8 @@ type Policy struct {
 	SkipShrink    bool // do not execute Shrink operations
 	SkipStats     bool // do not call Stats between operations
 	UncachedOnly  bool // never register filters
+	DropObsOdd    bool // do not register observers with an odd index (neighbour-independence, C08)
+	FreshOnReset  bool // replace the world by a new one instead of calling Reset (C16)
 }
 
 // Rec is one recorded observer callback.
@@ -41,28 +43,30 @@ type Rec struct {
 
 // Backend is one real world plus the bookkeeping to address it by model serials.
 type Backend struct {
-	Name   string
-	Pol    Policy
-	Cfg    Config
-	W      *ecs.World
-	U      ecs.Unsafe
-	IDs    [comps.N]ecs.ID
-	H      []ecs.Entity // handle by serial (zero value = not bound yet)
-	Ser    map[ecs.Entity]int
-	Issued map[ecs.Entity]bool // every handle issued since creation / last reset
-	maps   []Mapper
-	exs    map[string]Exchanger
-	flt    []Filter // parallel to model.Filters (nil for unsafe filters)
-	uflt   map[int]ecs.UnsafeFilter
-	obs    []Obs // parallel to model.Obs
-	obsOn  []bool
-	pend   []int // serials of entities being created, not yet bound to a handle
-	rec    []Rec
-	evReg  ecs.EventRegistry
-	evT    [NumEv]ecs.EventType
-	all    *ecs.Filter0
-	Trace  *strings.Builder
-	openQ  map[int]*openQuery
+	Name    string
+	Pol     Policy
+	Cfg     Config
+	W       *ecs.World
+	U       ecs.Unsafe
+	IDs     [comps.N]ecs.ID
+	H       []ecs.Entity // handle by serial (zero value = not bound yet)
+	Ser     map[ecs.Entity]int
+	Issued  map[ecs.Entity]bool // every handle issued since creation / last reset
+	maps    []Mapper
+	exs     map[string]Exchanger
+	flt     []Filter // parallel to model.Filters (nil for unsafe filters)
+	uflt    map[int]ecs.UnsafeFilter
+	twin    map[int]Filter // never-registered twins of registered filters (C05)
+	obs     []Obs          // parallel to model.Obs
+	obsOn   []bool
+	pend    []int // serials of entities being created, not yet bound to a handle
+	rec     []Rec
+	evReg   ecs.EventRegistry
+	evT     [NumEv]ecs.EventType
+	all     *ecs.Filter0
+	Trace   *strings.Builder
+	openQ   map[int]*openQuery
+	useTwin bool
 }
 
 type openQuery struct {
@@ -75,7 +79,7 @@ type openQuery struct {
 
 // NewBackend creates a world according to cfg.
 func NewBackend(name string, cfg Config, pol Policy) *Backend {
-	b := &Backend{Name: name, Pol: pol, Cfg: cfg, Ser: map[ecs.Entity]int{}, Issued: map[ecs.Entity]bool{}, exs: map[string]Exchanger{}, uflt: map[int]ecs.UnsafeFilter{}, openQ: map[int]*openQuery{}}
+	b := &Backend{Name: name, Pol: pol, Cfg: cfg, Ser: map[ecs.Entity]int{}, Issued: map[ecs.Entity]bool{}, exs: map[string]Exchanger{}, uflt: map[int]ecs.UnsafeFilter{}, openQ: map[int]*openQuery{}, twin: map[int]Filter{}}
 	switch {
 	case cfg.Cap1 == 0:
 		b.W = ecs.NewWorld()
@@ -461,6 +465,9 @@ func (b *Backend) filterList(m *Model, fi int) []int { return m.Filters[fi].List
 // openQueryOn opens a query of filter fi with per-query relations.
 func (b *Backend) openQueryOn(m *Model, fi int, extra []RelSpec) Query {
 	f := m.Filters[fi]
+	if b.useTwin {
+		return b.twin[fi].Query(b.rels(f.List(), extra))
+	}
 	if f.Inst < 0 {
 		return &unsafeQuery{q: b.uflt[fi].Query(b.urels(extra)...), b: b, list: f.UComps}
 	}
